@@ -294,13 +294,14 @@ pub fn write_ppm(
     }
     .write(&mut out)?;
 
-    // Appease the borrow checker
-    let res = slice
+    slice
         .rows()
         .flatten()
         .map(|c| c.0)
-        .try_for_each(|rgb| out.write_all(&rgb[..]));
-    res
+        .try_for_each(|rgb| out.write_all(&rgb[..]))?;
+    // `out` is dropped here and may be buffered: flush it so that
+    // an error writing out the rest is reported, not lost in the drop
+    out.flush()
 }
 
 /// Parses a numeric value from `src`, skipping whitespace and comments.
